@@ -141,7 +141,40 @@ class Allocation3(Allocation):
         self.name = "property:allocation-meets-the-variance-budget"
 
 
-UNITS = [Allocation(), BudgetSplit(), StoppingTest(), Allocation3()]
+class ConfiguredLevels(FunctionContract):
+    """ConfigurationMultiLevel.__init__ (real body): "the configured maximum" the engine reads IS the value the caller gave --
+    initial level, maximum level and initial number of samples are stored unchanged for every admissible value, 0 included
+    (a single-level configuration maximum_level = 0 is a value, not an absent argument), and initial_level > maximum_level
+    is rejected."""
+    prop = "C06"
+    target = "rpylib.montecarlo.configuration:ConfigurationMultiLevel.__init__"
+    name = "ConfigurationMultiLevel.__init__"
+    raises = {"ValueError": lambda initial_level=None, maximum_level=None, **kw: initial_level > maximum_level}
+
+    def setup(self, vc, case):
+        L0, Lmax, N0 = vc.int("initial_level"), vc.int("maximum_level"), vc.int("initial_mc_paths")
+        vc.assume(And(L0 >= 0, Lmax >= 0, N0 >= 1))
+        return dict(self=vc.obj("rpylib.montecarlo.configuration:ConfigurationMultiLevel"), initial_level=L0, maximum_level=Lmax, initial_mc_paths=N0)
+
+    def ensures(self, result, self_=None, initial_level=None, maximum_level=None, initial_mc_paths=None, **kw):
+        f = self_.fields
+        return {"maximum-level-is-the-configured-one": compare(f.get("maximum_level"), maximum_level, "=="),
+                "initial-level-is-the-configured-one": compare(f.get("initial_level"), initial_level, "=="),
+                "initial-sample-size-is-the-configured-one": compare(f.get("initial_mc_paths"), initial_mc_paths, "==")}
+
+    def replay(self, model, clause, case):
+        from rpylib.montecarlo.configuration import ConfigurationMultiLevel
+        m = model or {}
+        L0, Lmax, N0 = int(m.get("initial_level", 0)), int(m.get("maximum_level", 0)), int(m.get("initial_mc_paths", 7))
+        try:
+            c = ConfigurationMultiLevel(initial_level=L0, maximum_level=Lmax, initial_mc_paths=N0)
+        except ValueError as e:
+            return (L0 <= Lmax, {"initial_level": L0, "maximum_level": Lmax, "exception": str(e)})
+        got = [c.initial_level, c.maximum_level, c.initial_mc_paths]
+        return (got != [L0, Lmax, N0], {"configured (initial, maximum, samples)": [L0, Lmax, N0], "stored": got})
+
+
+UNITS = [Allocation(), BudgetSplit(), StoppingTest(), Allocation3(), ConfiguredLevels()]
 
 
 def LATE_UNITS():
